@@ -176,9 +176,13 @@ prop("C12", modules=["names"],
      functions=["reference:FunctionReference.parse_qualified_name", "reference:FunctionReference.parse_qualified_name@ambiguous-cluster",
                 "reference:FunctionReference.__init__", "reference:FunctionReference.from_qualified_name", "external:UnboundExternalMementoFunction.__init__",
                 # "metadata source ignores mementos whose functions cannot be found": one slot per request, nothing escapes (contract of C08)
-                "storage_base:DataSourceMetadataSource.get_mementos"],
-     function_modules={"storage_base:DataSourceMetadataSource.get_mementos": ["crash"]},
-     split={"reference:FunctionReference.__init__": 12},
+                "storage_base:DataSourceMetadataSource.get_mementos",
+                # reading a stored function-valued argument: the decoded reference always has a function object behind it (found or external stub), so the argument decoder
+                # never gives up with FunctionNotFoundError
+                "serialization:MementoCodec.decode_fn_reference", "serialization:MementoCodec.decode_arg"],
+     function_modules={"storage_base:DataSourceMetadataSource.get_mementos": ["crash"], "serialization:MementoCodec.decode_fn_reference": ["wire"],
+                       "serialization:MementoCodec.decode_arg": ["wire"]},
+     split={"reference:FunctionReference.__init__": 12, "serialization:MementoCodec.decode_fn_reference": 10, "serialization:MementoCodec.decode_arg": 8},
      design_ref="DESIGN.md section 6, C12",
      trusted=["backtracking semantics of re.match on the supported regex subset: the returned match is the most preferred feasible choice vector (pyvc/regex.py)"],
      assumptions=[])
